@@ -235,6 +235,14 @@ func classifyCase(addrs, locals []string, dist map[string]int) string {
 
 func rangeCase(g *hx.Gen, dist map[string]int) string {
 	addrs := genAddrList(g, dist)
+	// the model computes in Z; Go's int64 wrap-around in getRangePorts needs |port| > 2^62, which
+	// ClassifyNATFeature rejects before getRangePorts is reached (those strings stay in the classify cases)
+	if n := len(addrs); n > 0 {
+		if _, p, err := net.SplitHostPort(addrs[n-1]); err == nil && len(p) > 12 {
+			addrs = addrs[:n-1]
+			dist["range_skipped_huge_port"]++
+		}
+	}
 	diff := []int{0, 0, 1, 3, 5, 6, 100, 70000}[g.Intn(8)]
 	maxn := []int{0, -1, 2, 10, 10, 1, 65535, 100000}[g.Intn(8)]
 	rs := nathole.VerifGetRangePorts(addrs, diff, maxn)
